@@ -761,7 +761,7 @@ func (h *vc17H) request(s vc17Shape, g vc17Group) vc17Res {
 func (h *vc17H) op(s vc17Shape, chunks []llm.CompletionResponse, runErr error, table string) string {
 	var b strings.Builder
 	ep := s.ep
-	fmt.Fprintf(&b, "run %s %s %s %s %s %d ", ep, vc17B(s.streaming()), vc17B(s.raw), vc17B(s.tools), vc17B(s.usage), h.run.promptLen)
+	fmt.Fprintf(&b, "run %d %s %s %s %s %s %d ", zzverif.EnvInt("VERIF_C17_VARIANT", 0), ep, vc17B(s.streaming()), vc17B(s.raw), vc17B(s.tools), vc17B(s.usage), h.run.promptLen)
 	if runErr != nil {
 		b.WriteString("err:" + zzverif.Hex([]byte(runErr.Error())))
 	} else {
